@@ -184,6 +184,8 @@ def parseItem (s : String) : Option SeqItem :=
   match s.splitOn "~" with
   | ["d", sc, c] => do pure (.decl (← sc.toNat?) (← parseTCand c))
   | ["r", id] => id.toNat?.map .define
+  | ["r", id, nd] => do pure (.redecl (← id.toNat?) (← nd.toNat?))
+  | ["p", id, nd] => do pure (.redecl (← id.toNat?) (← nd.toNat?))
   | ["c", m, az, ts] => do
     let x ← if ts.isEmpty then some [] else sequenceOpt ((ts.splitOn "+").map parseTArg)
     pure (.site (← m.toNat?) x (← parseArgs az))
@@ -234,7 +236,9 @@ def seqStrings (p : SeqPath) (structHelpers : List Nat) (st : SeqState) : List S
 
 def handleSeq (body opts : String) : String :=
   match sequenceOpt ((body.splitOn "|").map parseItem), parseSeqPath opts with
-  | some items, some p =>
+  | some items0, some p =>
+    -- a later declaration of a function template whose parameter types mention a template parameter is one more overload
+    let items := elaborate items0
     let structHelpers := (body.splitOn "|").filterMap fun s =>
       match s.splitOn "~" with | ["s", j, _, _] => j.toNat? | _ => none
     let out := seqStrings p structHelpers (SeqState.init p items) items
